@@ -852,6 +852,7 @@ func (g *Gen) verifyFunc(fn *ssa.Function, con *Contract) (vc *VC, err error) {
 			}
 			env := x.newEnv(x.oldOf(r.st), x.oldOf(r.st))
 			env.atBlock = r.blk
+			env.paramsAtEntry = true
 			env.bindResults(sig, r.vals)
 			v := env.eval(ef.Expr)
 			comp := env.compByName("ghost:" + ef.Name)
@@ -864,6 +865,7 @@ func (g *Gen) verifyFunc(fn *ssa.Function, con *Contract) (vc *VC, err error) {
 			}
 			env := x.newEnv(r.st, x.oldOf(r.st))
 			env.atBlock = r.blk
+			env.paramsAtEntry = true
 			env.bindResults(sig, r.vals)
 			t := env.evalBool(cl.Expr)
 			x.obligeClause("post", clauseLabel(cl), r.st.reach, t, cl)
